@@ -10,7 +10,7 @@ import time
 from . import tlc as tlcmod
 
 VERIF = tlcmod.VERIF
-EVID = os.path.join(VERIF, "evidence")
+EVID = os.environ.get("VERIF_EVIDENCE_DIR") or os.path.join(VERIF, "evidence")   # (tools/seedtest.sh redirects it: runs against a patched scratch tree never touch the committed evidence)
 REPLAYS = os.path.join(EVID, "replays")
 FINDINGS = os.path.join(VERIF, "known_findings.json")
 PY = "/venv/bin/python"
